@@ -474,6 +474,7 @@ func main() {
 	vrtDir := flag.String("vrt", "/verif/vrt", "vrt shim sources")
 	harnessDir := flag.String("harness", "/verif/harness", "harness sources")
 	extra := flag.String("extra", "", "comma separated extra overlay entries dst=src")
+	modfile := flag.String("modfile", "", "alternate go.mod (so that the go command never edits the repository's)")
 	flag.Parse()
 	if *out == "" {
 		die("-out required")
@@ -485,6 +486,9 @@ func main() {
 		Dir:   absRepo,
 		Tests: false,
 		Env:   os.Environ(),
+	}
+	if *modfile != "" {
+		cfg.BuildFlags = []string{"-modfile=" + *modfile}
 	}
 	pats := []string{"./internal/spynode", "./internal/handlers", "./internal/state",
 		"./internal/storage", "./pkg/client", threadsPath}
